@@ -85,7 +85,8 @@ static sqfs_s32 lz4_comp_block(sqfs_compressor_t *base, const sqfs_u8 *in,
 	if (ret < 0)
 		return SQFS_ERROR_COMPRESSOR;
 
-	return ret;
+	/* like the other compressors: 0 means "store it uncompressed" */
+	return (sqfs_u32)ret < size ? ret : 0;
 }
 
 static sqfs_s32 lz4_uncomp_block(sqfs_compressor_t *base, const sqfs_u8 *in,
